@@ -132,8 +132,8 @@ func c03Wire(c *ctx) {
 					if r.Intn(5) < 3 {
 						// aim at the table: a name one of its host patterns matches
 						h := routes[r.Intn(len(routes))].Host
-						if i := strings.LastIndex(h, ":"); i >= 0 {
-							h = h[:i]
+						if i := strings.LastIndex(h, ":"); i >= 0 && !strings.HasSuffix(h, "]") && !strings.Contains(h[i:], "]") {
+							h = h[:i] // drop a port, but leave IPv6 literals whole
 						}
 						h = strings.NewReplacer("*", choose(r, []string{"a", "b", "c.a", ""}), "?", "a", "[ab]", "b", "{a,b}", "a", "{x,ax}", "ax", "[w-y]", "x", "{", "").Replace(h)
 						if h != "" {
@@ -150,6 +150,12 @@ func c03Wire(c *ctx) {
 					}
 					if path == "" || path[0] != '/' {
 						path = "/" + path
+					}
+					for _, ch := range path {
+						if ch > 127 {
+							path = "/" // request lines stay ASCII here; non-ASCII paths are the in-process part's business
+							break
+						}
 					}
 					mode := choose(r, []string{"plain", "plain", "tls", "h2", "absolute"})
 					rwg.Add(1)
